@@ -108,10 +108,16 @@ def run(prop, tier, replay=None):
         violations.append(("model invariant %s violated" % mc["violated"], path))
 
     # 2. scripts: regression corpus + enumerated + sampled
+    sub_replay = None
     if replay:
         with open(replay) as f:
             payload = json.load(f)
-        scripts = [payload["script"]]
+        if payload.get("kind") in ("flag-trace", "jobmt-trace"):
+            sub_replay, scripts = payload, []
+        elif payload.get("kind") in ("model", "proof"):
+            scripts = []                     # the model check / the proof above is the replay
+        else:
+            scripts = [payload["script"]]
         reps = 16
     else:
         scripts = [json.loads(l) for l in open(os.path.join(vlib.ROOT, "tools", "job_regress.ndjson"))]
@@ -152,6 +158,14 @@ def run(prop, tier, replay=None):
                                                       r["line"], r["event"]["e"]), path))
 
     extra = {}
+    if prop == "C07" and sub_replay and sub_replay["kind"] == "flag-trace":
+        import flagcheck
+        fviol, extra, fmc, fstats = flagcheck.run(prop, tier, rng, only=sub_replay["script"])
+        violations += fviol
+    if prop in ("C10", "C04") and sub_replay and sub_replay["kind"] == "jobmt-trace":
+        import jobmtcheck
+        mviol, mextra, mstats = jobmtcheck.run(prop, tier, rng, only=sub_replay["script"])
+        violations += mviol
     if prop == "C07" and not replay:
         # several waiters on one ticket, on real threads: the Flag itself against Flag.tla
         import flagcheck
